@@ -47,6 +47,8 @@ func c14Menu(initial int) []c14Doc {
 		{Name: "V-new-types", SDL: "type N1 { x: Int }\nenum NE { P Q }\n"},
 		{Name: "V-extend-object", SDL: "extend type " + q + " { added: Int }\n"},
 		{Name: "V-new-scalar", SDL: "scalar Day\n"},
+		// an operation root that sorts after one the schema does not have yet (subscription, no mutation)
+		{Name: "V-subscription-type-only", SDL: "type Subscription { vs: Int }\n"},
 		{Name: "V-directive-def-and-use", SDL: "directive @nd(k: Int = 1) on OBJECT\ntype N2 @nd(k: 2) { y: Int }\n"},
 		// a directive use whose argument is an input object: validation coerces such values (and fills defaults in)
 		{Name: "V-directive-with-input-object-argument", SDL: "directive @cfg(opt: Opt, opts: [Opt]) on OBJECT\ninput Opt { a: Int }\ntype Cfgd @cfg(opt: {a: 1}, opts: [{a: 2}]) { x: Int }\n" +
@@ -84,6 +86,10 @@ func c14Menu(initial int) []c14Doc {
 	// scalars that exist already (Date in the kitchen sink, Day after V-new-scalar; elsewhere they are simply new) declared
 	// again, with a description this time: the existing scalar is kept, and nothing of the refused load may stick to it
 	prefixes = append(prefixes, struct{ name, sdl string }{"scalars-declared-again-with-descriptions", "\"A day, says a load that may be refused.\" scalar Day\n\"A date, likewise.\" scalar Date\n"})
+	if initial == 0 {
+		// the undeclared schema is given the operation it lacks by the failing document (valid unless a mutation type exists)
+		prefixes = append(prefixes, struct{ name, sdl string }{"extend-schema-names-the-missing-mutation", "type Mut7 { m7: Int }\nextend schema { mutation: Mut7 }\n"})
+	}
 	failures := []struct{ name, sdl string }{
 		{"syntax-error", "type Broken { x: \n"},
 		{"undefined-reference", "type Bad1 { y: Zq7 }\n"},
@@ -135,6 +141,14 @@ func c14Menu(initial int) []c14Doc {
 		b := &ggql.Object{Base: ggql.Base{N: "AT2"}}
 		_ = b.AddField(&ggql.FieldDef{Base: ggql.Base{N: "bad"}, Type: &ggql.Ref{Base: ggql.Base{N: "Zq7"}}})
 		return []ggql.Type{o, b}
+	}})
+	// a root operation type handed over by AddTypes together with a type that only validation refuses (no fields)
+	out = append(out, c14Doc{Name: "F-addtypes-root-type-and-empty-type", AddTypes: func() []ggql.Type {
+		m := &ggql.Object{Base: ggql.Base{N: "Mutation"}}
+		_ = m.AddField(&ggql.FieldDef{Base: ggql.Base{N: "am"}, Type: &ggql.Ref{Base: ggql.Base{N: "Int"}}})
+		sub := &ggql.Object{Base: ggql.Base{N: "Subscription"}}
+		_ = sub.AddField(&ggql.FieldDef{Base: ggql.Base{N: "as"}, Type: &ggql.Ref{Base: ggql.Base{N: "Int"}}})
+		return []ggql.Type{m, sub, &ggql.Object{Base: ggql.Base{N: "AT4Empty"}}}
 	}})
 	out = append(out, c14Doc{Name: "V-addtypes", AddTypes: func() []ggql.Type {
 		o := &ggql.Object{Base: ggql.Base{N: "AT3"}}
